@@ -17,6 +17,8 @@
 
 fn main() {
     rust_nightly();
+    // Verification hooks are guarded by `--cfg starlark_verif`.
+    println!("cargo::rustc-check-cfg=cfg(starlark_verif)");
 }
 
 fn rust_nightly() {
